@@ -6,7 +6,7 @@
 # removed afterwards. Results: /verif/mutants/results.json (one line per mutant x property).
 #   usage: scripts/sensitivity.sh [-j N] [-s] [mutant-name ...]     (-s: skip the crate's own tests)
 set -u
-VERIF=/verif; REPO=/repo; SCRATCH=${SCRATCH:-/root/scratch/sens}
+VERIF=$(cd "$(dirname "$0")/.." && pwd); REPO=/repo; SCRATCH=${SCRATCH:-/root/scratch/sens}
 JOBS=4; SKIPTESTS=0
 while getopts "j:s" o; do case $o in j) JOBS=$OPTARG;; s) SKIPTESTS=1;; esac; done; shift $((OPTIND-1))
 mkdir -p "$SCRATCH"
